@@ -10,6 +10,8 @@ package main
 import (
 	"go/token"
 	"go/types"
+	"sort"
+	"strings"
 
 	"golang.org/x/tools/go/ssa"
 )
@@ -403,4 +405,155 @@ func nilEdgeDominates(call *ssa.Call, b *ssa.BasicBlock) bool {
 		}
 	}
 	return false
+}
+
+// entryFacts: for an unexported function every use of which is a static call in the module, the
+// facts about its parameters that hold at every one of those calls (from the branch conditions
+// dominating the call), in the function's own names: its callers' guards are its preconditions.
+func (g *GuardCtx) entryFacts() []Fact {
+	if g.entryDone {
+		return g.entry
+	}
+	g.entryDone = true
+	fn := g.Fn
+	if fn.Parent() != nil || summaryDepth > 1 {
+		return nil
+	}
+	if obj := fn.Object(); obj != nil && obj.Exported() && fn.Origin() == nil {
+		return nil
+	}
+	if fn.Origin() != nil {
+		if obj := fn.Origin().Object(); obj == nil || obj.Exported() {
+			return nil
+		}
+	}
+	sites, complete := g.P.staticCallSites(fn)
+	if !complete || len(sites) == 0 {
+		return nil
+	}
+	summaryDepth++
+	defer func() { summaryDepth-- }()
+	var common map[string]Fact
+	for _, site := range sites {
+		caller := site.Parent()
+		cc := CallOf(site)
+		if caller == fn || len(cc.Args) != len(fn.Params) {
+			return nil
+		}
+		gc := NewGuardCtx(g.P, caller, nil)
+		// how the caller's names of the arguments read in the callee
+		whole := map[string]string{}
+		toks := map[string]string{}
+		for i, prm := range fn.Params {
+			w, t, ok := renderArg(gc.PC, cc.Args[i])
+			if !ok {
+				continue
+			}
+			name := "‹" + prm.Name() + "›"
+			if w != nil {
+				if len(w) == 1 {
+					for k, c := range w {
+						if c == 1 && k != "" {
+							whole[k] = name
+						}
+					}
+				}
+			} else {
+				toks[t] = name
+			}
+		}
+		cur := map[string]Fact{}
+		for _, f := range gc.FactsAtBlock(site.Block()) {
+			ok := true
+			d := mapSyms(f.D, func(s string) string {
+				if n, has := whole[s]; has {
+					return n
+				}
+				for t, n := range toks {
+					if strings.Contains(s, t) {
+						s = strings.ReplaceAll(s, t, n)
+					}
+				}
+				return s
+			})
+			for _, s := range d.Symbols() {
+				if strings.ContainsAny(s, "#{") {
+					ok = false
+				}
+				roots := rootTok.FindAllString(s, -1)
+				if len(roots) == 0 {
+					ok = false
+				}
+				for _, rt := range roots {
+					isPrm := false
+					for _, prm := range fn.Params {
+						if rt == "‹"+prm.Name()+"›" {
+							isPrm = true
+						}
+					}
+					// a name of the caller that survived the renaming is not a name of the callee
+					renamed := false
+					for _, n := range whole {
+						renamed = renamed || n == rt
+					}
+					for _, n := range toks {
+						renamed = renamed || n == rt
+					}
+					if !isPrm || !renamed {
+						ok = false
+					}
+				}
+			}
+			if ok {
+				nf := Fact{D: d, Eq: f.Eq, NE: f.NE, Why: "holds at every call of " + FuncName(fn)}
+				cur[nf.String()] = nf
+			}
+		}
+		if common == nil {
+			common = cur
+		} else {
+			for k := range common {
+				if _, has := cur[k]; !has {
+					delete(common, k)
+				}
+			}
+		}
+	}
+	var keys []string
+	for k := range common {
+		keys = append(keys, k)
+	}
+	sort.Strings(keys)
+	for _, k := range keys {
+		g.entry = append(g.entry, common[k])
+	}
+	// sign conditions of integer parameters, asked of every caller (the caller may establish
+	// them in ways that do not translate name by name, e.g. by clamping the argument)
+	ctxs := map[*ssa.Function]*GuardCtx{}
+	for i, prm := range fn.Params {
+		if !isIntLike(prm.Type()) {
+			continue
+		}
+		name := polySym("‹" + prm.Name() + "›")
+		for _, k := range []int64{1, 0} {
+			all := true
+			for _, site := range sites {
+				caller := site.Parent()
+				gc := ctxs[caller]
+				if gc == nil {
+					gc = NewGuardCtx(g.P, caller, nil)
+					ctxs[caller] = gc
+				}
+				if !gc.Prove(gc.PC.Of(CallOf(site).Args[i]).Sub(polyConst(k)), site) {
+					all = false
+					break
+				}
+			}
+			if all {
+				g.entry = append(g.entry, Fact{D: name.Sub(polyConst(k)), Why: "proven at every call of " + FuncName(fn)})
+				break
+			}
+		}
+	}
+	return g.entry
 }
